@@ -36,6 +36,8 @@ inline unsigned char rx_byte(uint64_t i) { return (unsigned char)((i * 89 + (i >
 //   policy threshold consume(0 all,1 k bytes,2 nothing) k shrink_in_cb        pclose      pwrclose n      disconnect     advance ms
 //   chain n k   the next k send-complete notifications each send n more bytes from inside the callback
 //   shrink which(0 receive,1 send,2 both)   BufferedFd::shrinkRecvBuffer()/shrinkSendBuffer() (mode 0)
+//   bind / unbind   (modes 0 and 2) received bytes go to a bound ByteStream instead of the receive callback: the sink must see the stream
+//                continue exactly where the callback stopped consuming
 //   pause n m    (mode 0) BufferedFd::disable(), then n bytes are sent and the peer writes m bytes while it is paused; the next op enables it again
 //   xdisc n how order   the application disconnects in the very loop pass in which the connection's own descriptor has something pending:
 //                the peer writes n bytes (how 0), writes and closes (1) or just closes (2); order 0 posts the disconnect first, 1 the peer acts first
@@ -83,6 +85,7 @@ void generate(sim::Rng &r, uint64_t seed, const std::string &tier, sim::Plan &p)
     else if (x < 57 || (x < 60 && mode != 0)) { op.kind = "prd"; op.a = {dt, r.chance(300) ? r.range(1, 100) : pick_size() * 2, 0}; }
     else if (x < 60) { op.kind = "pause"; op.a = {dt, r.chance(600) ? pick_size() : 0, r.chance(500) ? pick_size() : 0}; enabled = false; }
     else if (x < 80) { op.kind = "pwr"; op.a = {dt, pick_size(), 0}; }
+    else if (x >= 86 && x < 88 && mode != 1) { op.kind = r.chance(600) ? "bind" : "unbind"; op.a = {dt, 0, 0}; }
     else if (x < 88) { op.kind = "policy"; op.a = {dt, r.pick((const long[]){0, 0, 1, 1, 2, 10, 2000}), (long)r.below(3), r.range(1, 3000), r.chance(350) ? 1 : 0}; }
     else if (x < 90) { op.kind = "shrink"; op.a = {dt, (long)r.below(3), 0}; }
     else if (x < 93) { op.kind = "advance"; op.a = {dt, r.range(1, 200), 0}; }
@@ -144,6 +147,17 @@ long peer_unread() {
 }
 
 void on_receive(Buffer &buff);
+void after_disconnect(const char *what);
+// a bound receiver: takes everything it is given
+struct Sink : public ByteStream {
+  void setReceiveCallback(const ReceiveCallback &, size_t) override {}
+  void setSendCompleteCallback(const SendCompleteCallback &) override {}
+  bool send(const void *data_ptr, size_t n) override;
+  void bind(ByteStream *) override {}
+  void unbind() override {}
+  Buffer *getReceiveBuffer() override { return nullptr; }
+};
+Sink g_sink;
 // every installation of the receive callback gets a version: data must go to the one installed last
 std::function<void(Buffer &)> make_receive_cb() {
   long v = ++W.cb_version;
@@ -181,6 +195,21 @@ void on_receive(Buffer &buff) {
   W.rx_consumed += take;
   if (W.shrink_in_cb) buff.shrink();
   sim::relevant();
+}
+
+bool Sink::send(const void *data_ptr, size_t n) {
+  after_disconnect("received data (to the bound receiver)");
+  const uint8_t *p = static_cast<const uint8_t *>(data_ptr);
+  sim::trace("sink gets %zu bytes at offset %lu", n, (unsigned long)W.rx_consumed);
+  if (W.rx_consumed + n > W.rx_written) { sim::violation("C06/receive-more-than-written", sim::fmt("the bound receiver was given %zu bytes at offset %lu but the peer has written only %lu", n, (unsigned long)W.rx_consumed, (unsigned long)W.rx_written)); return true; }
+  for (size_t i = 0; i < n; ++i) if (p[i] != rx_byte(W.rx_consumed + i)) {
+    sim::violation("C06/receive-stream-corrupt", sim::fmt("byte %zu handed to the bound receiver (stream offset %lu) differs from what the peer wrote: bytes were lost, duplicated or reordered", i, (unsigned long)(W.rx_consumed + i)));
+    return true;
+  }
+  W.rx_consumed += n;
+  if (W.rx_consumed > W.rx_presented) W.rx_presented = W.rx_consumed;
+  sim::relevant();
+  return true;
 }
 
 bool tbox_send(long n);
@@ -298,6 +327,14 @@ void apply(const sim::Op &op) {
     if (W.mode == 1) W.threshold = 0;
     W.max_threshold = std::max(W.max_threshold, W.threshold);
     sim::trace("policy thr=%ld mode=%ld k=%ld", W.threshold, W.consume_mode, W.consume_k);
+  } else if (k == "bind" || k == "unbind") {
+    bool b = k == "bind";
+    if (W.local_disconnected) return;
+    if (W.mode == 0 && W.bfd) { if (b) W.bfd->bind(&g_sink); else W.bfd->unbind(); }
+    else if (W.mode == 2) { if (b) W.client->bind(&g_sink); else W.client->unbind(); }
+    else return;
+    sim::probe(b ? "binds" : "unbinds");
+    sim::trace("%s", k.c_str());
   } else if (k == "chain") { W.chain_n = std::max(1L, std::min(4000000L, n)); W.chain_left = std::max(0L, std::min(8L, op.arg(2))); }
   else if (k == "shrink") {
     if (W.mode == 0 && W.bfd) { long w = ((op.arg(1) % 3) + 3) % 3; if (w != 1) W.bfd->shrinkRecvBuffer(); if (w != 0) W.bfd->shrinkSendBuffer(); sim::probe("shrinks"); }
